@@ -552,4 +552,21 @@ SimShapes ==
       Sh("map", <<2, 3>>, {}, ""), Sh("map", <<3, 0>>, {}, ""),
       Sh("smap", <<2, 3>>, {<<1, 2>>, <<1, 3>>, <<2, 1>>, <<2, 3>>}, ""),
       Sh("bmap", <<2, 5>>, {}, ""), Sh("bmap", <<3, 4>>, {}, ""), Sh("bmap", <<2, 1>>, {}, "") }
+\* shapes beyond the sizes at which an implementation would switch representation (16, 32, 64 ...)
+LargeShapes ==
+    { Sh("block", <<20>>, {}, ""), Sh("block", <<5, 7>>, {}, ""), Sh("block", <<2, 17>>, {}, ""),
+      Sh("block", <<3, 3, 4>>, {}, ""),
+      Sh("comb", <<7, 3>>, {}, ""), Sh("comb", <<18, 1>>, {}, ""), Sh("perm", <<5, 2>>, {}, ""),
+      Sh("words", <<3, 3>>, {}, ""), Sh("words", <<6, 2>>, {}, ""), Sh("words", <<17, 1>>, {}, ""),
+      Sh("bip", <<2, 20>>, {<<1, v>> : v \in 1..20} \cup {<<2, 2>>, <<2, 5>>, <<2, 19>>}, ""),
+      Sh("bip", <<3, 18>>, {<<2, v>> : v \in 2..18} \cup {<<1, 18>>, <<3, 1>>}, ""),
+      Sh("bip", <<18, 2>>, {<<u, 2>> : u \in 1..18} \cup {<<4, 1>>}, ""),
+      Sh("smap", <<2, 19>>, {<<1, v>> : v \in 1..19} \cup {<<2, v>> : v \in {1, 19}}, ""),
+      Sh("graph", <<20>>, {<<1, v>> : v \in 2..20} \cup {<<2, 3>>, <<5, 20>>, <<19, 20>>}, ""),
+      Sh("graph", <<19>>, {<<2, v>> : v \in 3..19} \cup {<<1, 19>>}, ""),
+      Sh("digraph", <<19>>, {<<1, v>> : v \in 1..19} \cup {<<v, 2>> : v \in 1..19}, "succ"),
+      Sh("digraph", <<19>>, {<<1, v>> : v \in 1..19} \cup {<<v, 2>> : v \in 1..19}, "pred"),
+      Sh("digraph", <<18>>, {<<18, v>> : v \in 1..18} \cup {<<3, 1>>}, "pred"),
+      Sh("map", <<2, 18>>, {}, ""), Sh("map", <<17, 2>>, {}, ""),
+      Sh("bmap", <<2, 40>>, {}, ""), Sh("bmap", <<3, 17>>, {}, ""), Sh("bmap", <<17, 2>>, {}, "") }
 =============================================================================
